@@ -197,4 +197,19 @@ META = {
         "note": _common_note + "Feature-id assignment and the sparse-vector layout handed to liblinear are not modelled (the hook decodes ids back to features).",
         "technique": "Lean 4 proof (counting lemmas over the mirrored loops) + hook-based differential correspondence",
     },
+    "C12": {
+        "text": "Lean theorems on the mirrored tag trainer bookkeeping: per category the model lists exactly the distinct tags observed "
+                "for the token, each once, with as many categories as the widest example (C12_candidates); the assembled tag model "
+                "carries the token, those candidate lists, a bias and weight vectors with exactly one entry per trainable candidate "
+                "(C12_sizes); a token gets a tag model iff it occurs with tag slots in the corpus or only in the tag dictionary with a "
+                "tag, each token once, corpus examples winning over the dictionary (C12_tokens); and for ANY class scores the "
+                "prediction rule gives a single-candidate category that candidate, a multi-candidate category one of them, an empty "
+                "category none (C12_pick). The score-equality clause is the composition with C06 (stored scores = classifier sums) "
+                "and is tied to /repo through hook H3: the Lean model must assemble the byte-identical tag models from the recorded "
+                "quantised weights, and the harness recomputes the stored tag scores from its own tag-feature enumeration.",
+        "design_ref": "DESIGN.md §6 C12",
+        "note": _common_note + "liblinear and the f64 quantisation are outside the model (hook trace). The end-to-end statement 'stored tag scores equal the "
+                "quantised classifier on the trainer's tag features' is established differentially (oracle on the trained models), not as one theorem.",
+        "technique": "Lean 4 proof (fold invariants over the mirrored bookkeeping) + hook-based differential correspondence (byte-identical assembled models)",
+    },
 }
